@@ -2,7 +2,7 @@
 C11 (round 3): kernel evaluations for the non-vacuity example of `C11_retokenize_partial`
 (in a file of their own: the tokenizer model is evaluated in the kernel).
 -/
-import Emboss.Lemmas.FmtRetokCells
+import Emboss.Lemmas.FmtRetokCols
 namespace Emboss.Fmt
 open Emboss.FmtTok Emboss.Tok Emboss.Generated
 
@@ -38,5 +38,31 @@ theorem exRows_expect : expectLeaves 3 0 [] (exRows.map (fun x => (x.1.indent, x
 theorem exRows_text :
     Handler.run 3 .module [.rows [], .rows [], .rows [], .rows [], .sections [exRows.map Prod.fst]] =
       some (.str "struct Foo:\n   0  [+1]  UInt  x\n".toList) := by decide +kernel
+
+/-! A block for `C11_columnize_retokenizes_partial`. -/
+
+def exBlock : Block :=
+  { pre := [], header := { name := .field, columns := ["0".toList, "[+1]".toList, "UInt".toList, "x".toList] },
+    body := [] }
+
+def exCellLeaves : List (List Leaf) :=
+  [[("Number", "0".toList)],
+   [("\"[\"", "[".toList), ("\"+\"", "+".toList), ("Number", "1".toList), ("\"]\"", "]".toList)],
+   [("CamelWord", "UInt".toList)], [("SnakeWord", "x".toList)]]
+
+theorem exBlock_cells : ∀ x ∈ colCells [exBlock] 2 2 exBlock.header 0 exBlock.header.columns exCellLeaves,
+    (x.1 = [] ∧ x.2.2 = []) ∨ (x.1 ≠ [] ∧ LineToks x.1 x.2.2) := by
+  intro x hx
+  simp only [exBlock, exCellLeaves, colCells, List.headD, List.tail, List.mem_cons, List.not_mem_nil,
+    or_false] at hx
+  rcases hx with rfl | rfl | rfl | rfl
+  all_goals
+    right
+    exact ⟨by decide, LineToks.of_evalLeaves (by decide +kernel) (by decide +kernel) (by decide +kernel)
+      (by decide +kernel)⟩
+
+theorem exBlock_open : OpenLast (colCells [exBlock] 2 2 exBlock.header 0 exBlock.header.columns exCellLeaves) := by
+  simp only [exBlock, exCellLeaves, colCells, OpenLast, List.headD, List.tail, OpenEnded]
+  decide
 
 end Emboss.Fmt
